@@ -14,6 +14,7 @@ pub mod c10;
 pub mod c11;
 pub mod c12;
 pub mod c16;
+pub mod c20;
 
 pub fn load_case(path: &str) -> Value {
     let txt = std::fs::read_to_string(path).unwrap_or_else(|e| {
@@ -55,6 +56,7 @@ pub fn dispatch(id: &str, tier: Tier, replay: Option<&str>) {
         "c11" => c11::run(tier, replay),
         "c12" => c12::run(tier, replay),
         "c16" => c16::run(tier, replay),
+        "c20" => c20::run(tier, replay),
         _ => {
             eprintln!("unknown check {id}");
             std::process::exit(2);
